@@ -265,8 +265,9 @@ class EstCapture:
 
 class AdagradZeroSpy:
     """notes whether Adagrad.update_step was called with an exactly zero gradient while its accumulator _gnormsum was 0 (first step of
-    a solve / after a failed epoch / only zero gradients so far): the input class of finding C13-G1 (step = 1/sqrt(0) = inf,
-    inf * 0 = nan in every factor entry)"""
+    a solve / after a failed epoch / only zero gradients so far): the input class of the REPAIRED finding C13-G1 (/repo 2496788; before:
+    step = 1/sqrt(0) = inf, inf * 0 = nan in every factor entry). No attribution any more: a run of this class whose numbers are not
+    finite is reported as a mismatch (the model stays put, Alg/C13StepArith.v adagrad_zero_accumulator), not skipped as diverging"""
 
     def __enter__(self):
         import numpy as np
@@ -288,10 +289,7 @@ class AdagradZeroSpy:
 
 def run_solve(a):
     with AdagradZeroSpy() as zspy:
-        o = _run_solve(a, zspy)
-    if zspy.hit:
-        o.setdefault("meta", {})["adagrad_zero"] = True
-    return o
+        return _run_solve(a, zspy)
 
 
 def _run_solve(a, zspy):
@@ -317,7 +315,7 @@ def _run_solve(a, zspy):
     ests = [v for _, v in cap.rec]
     if zspy.hit and (any(not math.isfinite(v) for v in ests) or any(not np.all(np.isfinite(f)) for f in result.factor_matrices)
                      or any(not np.all(np.isfinite(f)) for fm, _ in cap.rec for f in fm)):          # ... or a model held at an epoch boundary
-        # NOT a diverging run: Adagrad turned the model into nan on an exactly zero gradient (finding C13-G1)
+        # NOT a diverging run: Adagrad turned the model into nan on an exactly zero gradient (regression of the repaired finding C13-G1)
         return {"nonfinite": True, "ests": [str(v) for v in ests], "trace": [str(v) for v in info["f_est_trace"]]}
     if any(not math.isfinite(v) for v in ests):
         return {"skip": "non-finite estimate"}
@@ -329,6 +327,10 @@ def _run_solve(a, zspy):
             "boundary_lb_ok": all(m >= lb for m in bmin), "min_entry": mn,
             "lb": (None if lb == -np.inf else _fr(lb)), "min_entry_q": _fr(mn), "bmin": [_fr(m) for m in bmin],
             "init_unchanged": start_ok and all(np.array_equal(x, y) for x, y in zip(init_copy, M0.factor_matrices)),
+            # started AT an exact solution (every sampled gradient exactly zero, feasible start): the returned model and every model held
+            # at an epoch boundary ARE the start, entry for entry (only compared for the cases that say so: args["exact_start"])
+            "stay": all(np.array_equal(x, y) for x, y in zip(init_copy, result.factor_matrices)) and
+                    all(np.array_equal(x, y) for fm, _ in cap.rec for x, y in zip(init_copy, fm)),
             "step_trace_len": int(len(info["step_trace"]))}
 
 
@@ -340,11 +342,7 @@ def _flat(result, info):
 
 
 def run_reuse(a):
-    with AdagradZeroSpy() as zspy:
-        o = _run_reuse(a)
-    if zspy.hit:
-        o.setdefault("meta", {})["adagrad_zero"] = True
-    return o
+    return _run_reuse(a)
 
 
 def _run_reuse(a):
@@ -893,6 +891,9 @@ def oracle(op, a, o):
             return f"returned model is the boundary model #{o['ret_cands']} but the smallest estimate {float(best)} belongs to #{ests.index(best)}"
         if not (o["lb_ok"] or 0 in o["ret_cands"]):
             return f"returned factor entry {o['min_entry']} below the lower bound"
+        if a.get("exact_start") and not o["stay"]:
+            return ("the solve was started AT an exact solution with a feasible guess (every sampled gradient is exactly zero): the returned "
+                    "model or a model held at an epoch boundary is not the starting guess")
         return None
     if op in ("lbfgsb", "lbfgsb_final_f"):
         for k, r in enumerate(o["outs"]):
@@ -1023,28 +1024,8 @@ def lb_witness_args(opts):
 
 
 # only the OPEN findings are replayed as witnesses; the inputs of the repaired ones (A-35, A-36, A-37, A-48, C13-S2, C13-L1, C13-L2)
-# are fixed regression cases in c13.gen_cases
-def _w_adagrad_zero():
-    """gcp_opt with Adagrad started AT the exact solution (data = full(model), integer factors: every sampled gradient is exactly 0)"""
-    import logging
-    import numpy as np
-    import pyttb as ttb
-    from pyttb.gcp.handles import Objectives
-    from pyttb.gcp.optimizers import Adagrad
-    logging.disable(logging.CRITICAL)
-    try:
-        M = ttb.ktensor([np.array([[1.0], [2.0]]), np.array([[1.0], [3.0], [2.0]])])
-        np.random.seed(0)
-        res, _, info = ttb.gcp_opt(M.full(), 1, Objectives.GAUSSIAN, Adagrad(max_iters=2, epoch_iters=2, printitn=0), init=M.copy(), printitn=0)
-    finally:
-        logging.disable(logging.NOTSET)
-    if any(not np.all(np.isfinite(f)) for f in res.factor_matrices):
-        return (f"gcp_opt(full(M), 1, GAUSSIAN, Adagrad(max_iters=2, epoch_iters=2), init=M) with M = [1,2] o [1,3,2]: returned factors "
-                f"{[f.ravel().tolist() for f in res.factor_matrices]}, trace {info['f_est_trace'].tolist()}")
-    return None
-
-
-WITNESSES = {"C13-S3": _w_empty, "A-47": _w_a47, "C13-S1": _w_short, "C13-G1": _w_adagrad_zero}
+# are fixed regression cases in c13.gen_cases (C13-G1: the exact-start solves there, incl. the former witness call through gcp_opt)
+WITNESSES = {"C13-S3": _w_empty, "A-47": _w_a47, "C13-S1": _w_short}
 
 
 # --------------------------------------------------------------------------------------- GCPSampler configuration table
